@@ -44,6 +44,8 @@ func (s *Protocol) Invoke(ctx context.Context, req []byte) (rsp []byte) {
 	rspPackage := requestf.ResponsePacket{}
 	is := codec.NewReader(req[4:])
 	reqPackage.ReadFrom(is)
+	// the transport needs the packet type also when it gives up waiting for this call (handle timeout)
+	current.SetPacketTypeFromContext(ctx, reqPackage.CPacketType)
 
 	recvPkgTs, ok := current.GetRecvPkgTsFromContext(ctx)
 	if !ok {
